@@ -26,6 +26,7 @@ type ReplayFile struct {
 	Property string      `json:"property"`
 	Scenario string      `json:"scenario"`
 	Choices  []int       `json:"choices"`
+	Case     any         `json:"case,omitempty"`
 	Sig      string      `json:"sig"`
 	Message  string      `json:"message"`
 	Result   *ExecResult `json:"result"`
@@ -39,11 +40,36 @@ func RunSuite(t *testing.T, items []SuiteItem) {
 		replay(t, items, rp)
 		return
 	}
-	shard, n := EnvInt("VERIF_SHARD", 0), EnvInt("VERIF_NSHARDS", 1)
-	budget := time.Duration(EnvInt("VERIF_BUDGET_S", 600)) * time.Second
 	t0 := time.Now()
-	end := t0.Add(budget)
-	out := &ShardOut{Shard: shard, NShards: n}
+	out := &ShardOut{Shard: EnvInt("VERIF_SHARD", 0), NShards: EnvInt("VERIF_NSHARDS", 1)}
+	out.Stats = ExploreAll(t, items, time.Duration(EnvInt("VERIF_BUDGET_S", 600))*time.Second)
+	out.WallS = time.Since(t0).Seconds()
+	if p := os.Getenv("VERIF_OUT"); p != "" {
+		b, _ := json.Marshal(out)
+		if err := os.WriteFile(p, b, 0o644); err != nil {
+			t.Fatal(err)
+		}
+	} else {
+		LogStats(t, out.Stats)
+	}
+}
+
+// LogStats prints a human-readable summary (used when no output file is requested).
+func LogStats(t *testing.T, stats []*Stats) {
+	for _, st := range stats {
+		t.Logf("%s: bound %d/%d execs=%d steps=%d depth=%d sigs=%d outcomes=%d status=%v levels=%v nondet=%d leaks=%d others=%v viol=%d wall=%.1fs exhaustive=%v",
+			st.Scenario, st.BoundCompleted, st.BoundRequested, st.Executions, st.Steps, st.MaxDepth, st.States, len(st.Outcomes), st.ByStatus, st.ByLevel, st.NonDet, st.Leaks, st.Others, len(st.Violations), st.WallS, st.Exhaustive)
+		for _, v := range st.Violations {
+			t.Logf("  VIOLATION dev=%d sig=%s: %s  choices=%v", v.Bound, v.Result.Outcome.Sig, v.Result.Outcome.Violation, v.Result.Choices())
+		}
+	}
+}
+
+// ExploreAll explores every item within the budget (shared evenly) and returns the statistics.
+func ExploreAll(t *testing.T, items []SuiteItem, budget time.Duration) []*Stats {
+	shard, n := EnvInt("VERIF_SHARD", 0), EnvInt("VERIF_NSHARDS", 1)
+	end := time.Now().Add(budget)
+	var stats []*Stats
 	var prog *os.File
 	if p := os.Getenv("VERIF_PROGRESS"); p != "" {
 		prog, _ = os.Create(p)
@@ -68,25 +94,13 @@ func RunSuite(t *testing.T, items []SuiteItem) {
 		}
 		e := &Explorer{T: t, Scn: it.Scn, Bound: it.Bound, Shard: shard, NShards: n, SplitLevel: split,
 			Deadline: time.Now().Add(share), ReplayEvery: 97, Progress: prog}
-		st := e.Explore()
-		out.Stats = append(out.Stats, st)
+		stats = append(stats, e.Explore())
 	}
-	out.WallS = time.Since(t0).Seconds()
-	if p := os.Getenv("VERIF_OUT"); p != "" {
-		b, _ := json.Marshal(out)
-		if err := os.WriteFile(p, b, 0o644); err != nil {
-			t.Fatal(err)
-		}
-	} else {
-		for _, st := range out.Stats {
-			t.Logf("%s: bound %d/%d execs=%d steps=%d depth=%d sigs=%d outcomes=%d status=%v levels=%v nondet=%d leaks=%d others=%v viol=%d wall=%.1fs exhaustive=%v",
-				st.Scenario, st.BoundCompleted, st.BoundRequested, st.Executions, st.Steps, st.MaxDepth, st.States, len(st.Outcomes), st.ByStatus, st.ByLevel, st.NonDet, st.Leaks, st.Others, len(st.Violations), st.WallS, st.Exhaustive)
-			for _, v := range st.Violations {
-				t.Logf("  VIOLATION dev=%d sig=%s: %s  choices=%v", v.Bound, v.Result.Outcome.Sig, v.Result.Outcome.Violation, v.Result.Choices())
-			}
-		}
-	}
+	return stats
 }
+
+// Replay runs the replay file against the items if it names one of their scenarios.
+func Replay(t *testing.T, items []SuiteItem, path string) { replay(t, items, path) }
 
 func replay(t *testing.T, items []SuiteItem, path string) {
 	b, err := os.ReadFile(path)
